@@ -14,7 +14,7 @@ import ast
 
 from ..cfg import known_falsy
 from ..model import self_attr, unparse, walk_body_shallow
-from .util import (case_reach, aliases_of, call_edges, chains_in, call_name, call_recv, calls_in, need, node_assign_value, node_writes_attr,
+from .util import (at, stored_attrs, case_reach, aliases_of, call_edges, chains_in, call_name, call_recv, calls_in, need, node_assign_value, node_writes_attr,
                    norm, registrations, where)
 
 TECHNIQUE = "handle discovery + teardown exhaustiveness, stop-cancel guard dominance in failure handlers, entry-point " \
@@ -280,8 +280,7 @@ def run(ctx):
                                 roots.append(reg["root"])
                     elif call_name(c) in ("callLater", "LoopingCall"):
                         # which handle stores the timer?
-                        st = n.stmt
-                        tgt = [self_attr(t) for t in st.targets] if isinstance(st, ast.Assign) else []
+                        tgt = sorted(stored_attrs(ctx.cfg(f), c))
                         roots.append("timer:" + ",".join(t for t in tgt if t))
                 reg_entries.setdefault(g.qname, []).append((f, roots, n))
     allowed_public = {"start", "commit", "shutdown", "__init__"}
@@ -382,8 +381,16 @@ def run(ctx):
     csd = ctx.cfg(shutdown)
     flag = [n for n in csd.nodes if node_writes_attr(n, "_shuttingdown") and isinstance(node_assign_value(
         n, "_shuttingdown"), ast.Constant) and node_assign_value(n, "_shuttingdown").value is True]
-    cas = shutdown.nested.get("_commit_and_stop")
-    ok_s = shutdown.nested.get("_handle_shutdown_commit_success")
+    # the closures of shutdown(), by role: the commit-and-stop step is the one that calls self.commit(); the success
+    # and failure continuations are the callback / errback it registers on that commit
+    cass = [g for g in shutdown.nested.values() if any(call_recv(c) == "self" for c in calls_in(g, "commit"))]
+    cas = cass[0] if len(cass) == 1 else None
+    ok_s = fail_h = None
+    if cas is not None:
+        for g in registrations(cas, prog):
+            if g["cb"] is not None and g["eb"] is not None and g["kind"] == "cbs":
+                ok_s = prog.resolve_callable(cas, g["cb"])
+                fail_h = prog.resolve_callable(cas, g["eb"])
     need(cas and ok_s, "shutdown helpers missing")
     uses = [n for n in csd.nodes if any(call_name(c) == cas.name or any(
         isinstance(a, ast.Name) and a.id == cas.name for a in c.args) for c in n.calls())]
@@ -416,7 +423,7 @@ def run(ctx):
         tests = [t for t, lab in ccm.control_deps(n.id) if t.kind == "test"]
         okc = okc and len(tests) == 1
         if tests:
-            tt = tests[0].stmt.test
+            tt = at(ctx, cm, tests[0].id, tests[0].stmt.test)
             vals = tt.values if isinstance(tt, ast.BoolOp) and isinstance(tt.op, ast.Or) else [tt]
             texts = sorted(norm(v) for v in vals)
             okc = okc and texts in (sorted(["self._last_processed_offset is None", "self._last_processed_offset == self._last_committed_offset"]),
@@ -425,7 +432,6 @@ def run(ctx):
             "commit() skips the request under a condition other than `nothing processed or processed == committed`", where(cm, cm.node),
             "consumer rewound below the committed offset (restart further back / offset reset): shutdown reports success without "
             "committing, last committed != last processed")
-    fail_h = shutdown.nested.get("_handle_shutdown_commit_failure")
     okp = False
     if fail_h is not None:
         chf = ctx.cfg(fail_h)
